@@ -186,6 +186,7 @@ func (c *gctl) now() int64 {
 func vtime(t int64) time.Time { return time.Unix(2000000+t, 0) }
 
 type gCollector struct {
+	once sync.Once
 	c    *gctl
 	done chan struct{}
 	stop chan struct{}
@@ -232,7 +233,7 @@ func (g *gCollector) Close() error {
 	a := g.c.parked["CL"]
 	g.c.mu.Unlock()
 	if free {
-		close(g.stop)
+		g.once.Do(func() { close(g.stop) })
 	} else if a != nil && a.name == "cl.idle" {
 		g.c.mu.Lock()
 		delete(g.c.parked, "CL")
